@@ -1,0 +1,25 @@
+//go:build verif
+
+// Contracts for package transforms32 (comment-only; read by /verif/bin/vcgo): TRUSTED frame conditions of the
+// float32 pixel/DCT kernels (see package transforms).
+package transforms32
+
+//@ func ImageToGray
+//@   trusted floating-point pixel conversion; only the frame is used
+//@   modifies mem(*pixels)
+
+//@ func DCT2DHash64
+//@   trusted floating-point DCT; only the frame is used
+//@   modifies mem(input)
+
+//@ func DCT2DHash256
+//@   trusted floating-point DCT; only the frame is used
+//@   modifies mem(*input)
+
+//@ func MedianOfPixels64
+//@   trusted quick-select on a private copy; only purity is used
+//@   pure
+
+//@ func MedianOfPixels256
+//@   trusted quick-select on a private copy; only purity is used
+//@   pure
